@@ -526,7 +526,9 @@ func (m *Manager) acquireTasks(envId uid.ID, taskDescriptors Descriptors) (err e
 
 			deployedTasks = make(DeploymentMap)
 
-			outcomeCh := make(chan ResourceOffersOutcome)
+			// Buffered: resourceOffers hands the verdict over with a non-blocking send and may get there before we
+			// are at the receive below. With an unbuffered channel that verdict was dropped and we waited forever.
+			outcomeCh := make(chan ResourceOffersOutcome, 1)
 			m.tasksToDeploy <- &ResourceOffersDeploymentRequest{
 				tasksToDeploy: tasksToRun,
 				envId:         envId,
